@@ -53,10 +53,13 @@ class TyGen:
             self.defs.append((n, f"enum {n} {{ " + ", ".join(f"c{i}" for i in range(r.choice([1, 2, 5]))) + " }")); return n
         if k == "flags":
             n = self.fresh("flg")
-            big = [33] if "bigflags" in self.features and r.random() < 0.2 else []
-            self.defs.append((n, f"flags {n} {{ " + ", ".join(f"b{i}" for i in range(r.choice([1, 3, 9, 17] + big))) + " }")); return n
+            # (the component type encoding rejects more than 32 flags)
+            self.defs.append((n, f"flags {n} {{ " + ", ".join(f"b{i}" for i in range(r.choice([1, 3, 9, 17, 32]))) + " }")); return n
         if k == "future": return f"future<{self.ty(d + 1)}>" if r.random() < 0.7 else "future"
-        if k == "stream": return f"stream<{self.ty(d + 1)}>" if r.random() < 0.7 else "stream"
+        if k == "stream":
+            if r.random() >= 0.7: return "stream"
+            p = self.ty(d + 1)
+            return f"stream<{'u8' if p == 'char' else p}>"      # wit-component: `stream<char>` is not valid at this time
         raise AssertionError(k)
 
 WORDS = ["a", "b2", "get", "set", "it", "thing", "res", "my", "http", "request", "x", "data", "v1",
@@ -117,6 +120,7 @@ def gen_iface_body(rng, ng, feats, nfuncs, stats, allow_resource=True, depth=3):
             k = rng.choice(["future", "stream"])
             if inner and rng.random() < 0.2:
                 inner = f"{rng.choice(['future', 'stream'])}<{inner}>"
+            if k == "stream" and inner == "char": inner = "u8"
             return f"{k}<{inner}>" if inner else k
         return tg.ty(rng.choice([0, 1, 2]), param)
     funcs = []
